@@ -205,7 +205,7 @@ def compress_cli(work, src, cfg_args, hash_len=64, compression="none", level=Non
 
 
 def clone_cli(work, archive_path, out_path, seeds=(), seed_output=False, verify_output=False, force=False,
-              pin=None, stdin_seed=None, blockdev=False, extra=None, strace_log=None, preload=None, env=None, timeout=300):
+              pin=None, stdin_seed=None, blockdev=False, extra=None, strace_log=None, preload=None, env=None, timeout=300, cwd=None):
     args = ["clone"]
     if seed_output:
         args.append("--seed-output")
@@ -225,7 +225,7 @@ def clone_cli(work, archive_path, out_path, seeds=(), seed_output=False, verify_
     e = dict(env or {})
     if blockdev:
         e["BITA_VERIF_TREAT_OUTPUT_AS_BLOCK_DEV"] = "1"
-    return run_bita(args, stdin_data=stdin_data, env=e, timeout=timeout, strace_log=strace_log, preload=preload)
+    return run_bita(args, stdin_data=stdin_data, env=e, timeout=timeout, strace_log=strace_log, preload=preload, cwd=cwd)
 
 
 def read_file(p):
@@ -951,7 +951,7 @@ def c16_files(seed, tier):
             seed2 = W.write(rng.randbytes(700), ".seed2")
             srv = None
             modes = ["plain", "seeds", "stdin-seed", "in-place", "in-place+seeds", "verify", "pin", "http", "http+seed", "force", "blockdev",
-                     "verify-mismatch", "verify-mismatch-in-place"]
+                     "verify-mismatch", "verify-mismatch-in-place", "plain-debug", "seeds-trace"]
             # a well-formed archive whose recorded source checksum is wrong: --verify-output fails at the very end
             from . import pyfmt
             pa = pyfmt.parse_archive(arch)
@@ -978,8 +978,13 @@ def c16_files(seed, tier):
                     with open(outp, "wb") as f:
                         f.write(edit_source(rng, src) + (b"\0" * (len(src) + 100) if mode == "blockdev" else b""))
                     before = set(os.listdir(sub))
-                if mode in ("seeds", "in-place+seeds", "http+seed"):
+                if mode in ("seeds", "in-place+seeds", "http+seed", "seeds-trace"):
                     kw["seeds"] = [seed1, seed2]
+                if mode.endswith("-debug") or mode.endswith("-trace"):
+                    # the global verbosity flag; run from the mode's own (otherwise empty) directory, where anything a
+                    # more talkative run might leave shows in the listing
+                    kw["extra"] = ["-v"] if mode.endswith("-debug") else ["-vv"]
+                    kw["cwd"] = sub
                 if mode == "stdin-seed":
                     kw["stdin_seed"] = edit_source(rng, src)
                 if mode.startswith("in-place"):
@@ -1023,8 +1028,38 @@ def c16_files(seed, tier):
                     R.fail("clone-left-extra-files", req + " :: " + repr(sorted(after - before)))
                 intents = ";".join(sorted(tp.get(outp, [])))
                 if not mode.startswith("verify-mismatch"):
-                    R.case("cli-clone-files %s" % mode, "output=%s others=%d" % (intents, len(others)))
+                    R.case("cli-clone-files %s" % mode.replace("-debug", "").replace("-trace", ""), "output=%s others=%d" % (intents, len(others)))
                 os.unlink(log)
+            if i == 0:
+                # an in-place update that has to park more than 16 MiB in memory (the default maximum chunk size) while it
+                # re-orders: two 20 MiB chunks swapped; nothing but the output may be opened for writing, no scratch file
+                # (TMPDIR is an empty directory of this row, so that one would show in its listing too)
+                bs = 20 << 20
+                a_, b_ = rng.randbytes(bs), rng.randbytes(bs)
+                bsrc = a_ + b_
+                barch, bapath, bcfg, bhl = make_archive(W, rng, bsrc, cfg=(["--fixed-size", str(bs)], "F:%d" % bs))
+                sub = os.path.join(W.dir, "big_swap")
+                os.makedirs(os.path.join(sub, "tmp"))
+                outp = os.path.join(sub, "output.img")
+                with open(outp, "wb") as f:
+                    f.write(b_ + a_)
+                del a_, b_
+                log = os.path.join(W.dir, "strace_big_swap.log")
+                cls, rc, so, se = clone_cli(W, bapath, outp, seed_output=True, strace_log=log, env={"TMPDIR": os.path.join(sub, "tmp")}, cwd=sub)
+                tp = _interesting(touched_paths(parse_strace(log)), W.dir)
+                req = "cli-clone-files mode=in-place, two 20 MiB chunks swapped"
+                R.stat("clone_modes")
+                R.stat("in_place_with_more_than_16_MiB_parked")
+                if cls != "ok" or read_file(outp) != bsrc:
+                    R.fail("clone-%s-in-mode" % cls, req)
+                others = {p_: sorted(v) for p_, v in tp.items() if p_ != outp}
+                if others:
+                    R.fail("clone-touched-a-file-other-than-the-output", req + " :: " + repr(others)[:300])
+                if os.listdir(os.path.join(sub, "tmp")) or set(os.listdir(sub)) != {"tmp", "output.img"}:
+                    R.fail("clone-left-extra-files", req + " :: " + repr(sorted(os.listdir(sub))))
+                os.unlink(log)
+                os.unlink(outp)
+                del bsrc
             # compress: exactly one new file, temp created then removed - also for an empty source and
             # for output names whose temp name `Path::with_extension` derives differently
             names = ["out.cba", "archive", "a.b.c", ".hidden", "x.tar.gz", "d.ir/out", ".h.x", "trail."]
@@ -1033,7 +1068,9 @@ def c16_files(seed, tier):
                       ("file-input", names[(2 * i + 1) % len(names)]), ("force", names[(2 * i + 2) % len(names)]),
                       ("empty-file-input", names[(2 * i + 3) % len(names)]),
                       # what a failed earlier run leaves behind: a regular file at the temp path (it is reused and removed)
-                      ("stale-temp-file-input", names[(3 * i) % len(names)])]
+                      ("stale-temp-file-input", names[(3 * i) % len(names)]),
+                      # the most talkative level, run from the (otherwise empty) directory of the archive
+                      ("file-input-trace", "out.cba")]
             if i == 0:
                 # KNOWN FINDING: the temp file is opened by name with create+truncate - something already at that
                 # path is reused (here: a dangling symbolic link, whose target then stays behind as a second new file)
@@ -1073,8 +1110,10 @@ def c16_files(seed, tier):
                     args += ["-i", inp]
                 if mode == "force":
                     args.append("--force-create")
+                if mode.endswith("-trace"):
+                    args.append("-vv")
                 args.append(outp)
-                cls, rc, so, se = run_bita(args, stdin_data=stdin_data, strace_log=log)
+                cls, rc, so, se = run_bita(args, stdin_data=stdin_data, strace_log=log, cwd=sub if mode.endswith("-trace") else None)
                 ev = parse_strace(log)
                 tp = _interesting(touched_paths(ev), W.dir)
                 # the documented temp name, derived independently of the model: the last extension of the
